@@ -77,3 +77,144 @@ def check_variable_serialize():
         if g is not None:
             g.cleanup()
     return rep
+
+
+# ------------------------------------------------------------------------------------------ the statement, end to end
+SCHEMA_FULL = """
+scalar Stamp
+scalar Tag
+scalar Plain
+scalar Loose
+interface Node { id: ID! at: Stamp }
+type Event implements Node { id: ID! at: Stamp when: Stamp! maybe: Stamp times: [Stamp!] grid: [[Stamp]] tag: Tag plain: Plain loose: Loose inner: Event }
+type Other implements Node { id: ID! at: Stamp }
+input Window { start: Stamp! end: Stamp stamps: [Stamp!] nested: Window tag: Tag }
+type Query { event(at: Stamp, after: Stamp, w: Window, ws: [Window!], many: [Stamp], tag: Tag): Event node: Node }
+"""
+QUERIES_FULL = """
+fragment Times on Event { when times }
+query GetEvent($after: Stamp!, $w: Window, $ws: [Window!], $tag: Tag!) {
+  event(after: $after, w: $w, ws: $ws, tag: $tag) { id when maybe times grid tag plain loose inner { when maybe } ...Times }
+}
+query GetNode { node { id at ... on Event { when } } }
+query Second($after: Stamp!) { event(after: $after) { id } }
+"""
+HELPER_SRC = '''
+CALLS = []
+def parse_stamp(v):
+    CALLS.append(("parse_stamp", v))
+    return Stamp("P:" + str(v))
+def ser_stamp(v):
+    CALLS.append(("ser_stamp", v))
+    return "S:" + str(getattr(v, "v", v))
+class Stamp:
+    def __init__(self, v): self.v = v
+    def __eq__(self, o): return isinstance(o, Stamp) and o.v == self.v
+    def __repr__(self): return "Stamp(%r)" % (self.v,)
+def parse_tag(v):
+    CALLS.append(("parse_tag", v))
+    return "tag:" + str(v)
+def ser_tag(v):
+    CALLS.append(("ser_tag", v))
+    return "out:" + str(v)
+'''
+
+
+def bounded_scalar_positions(tier, seed):
+    """statement of C07 on a generated client: instrumented parse / serialize functions record every call.
+    configurations: Stamp = dotted type + parse + serialize; Tag = builtin `str` type with dotted parse + serialize;
+    Plain = pydantic-native type only; Loose = unconfigured"""
+    import importlib
+    import pydantic
+    cases, fails = 0, []
+    os.makedirs(SCRATCH, exist_ok=True)
+    helper = "pyvc_scalar_positions"
+    with open(os.path.join(SCRATCH, helper + ".py"), "w") as f:
+        f.write(HELPER_SRC)
+    if SCRATCH not in sys.path:
+        sys.path.insert(0, SCRATCH)
+    g = None
+    try:
+        try:
+            g = generate_client(SCHEMA_FULL, QUERIES_FULL, scalars={
+                "Stamp": {"type": f"{helper}.Stamp", "parse": f"{helper}.parse_stamp", "serialize": f"{helper}.ser_stamp"},
+                "Tag": {"type": "str", "parse": f"{helper}.parse_tag", "serialize": f"{helper}.ser_tag"},
+                "Plain": {"type": "int"}})
+            hm = importlib.reload(__import__(helper))
+            mod = g.module()
+            it = g.module("input_types")
+        except Exception as e:      # noqa
+            return dict(function="ariadne_codegen.main:client", name="bounded.scalar-positions", kind="bounded stand-in (end-to-end, native)",
+                        domain="generation", cases=1, failed=1,
+                        failures=[dict(inputs=dict(scenario="package-generates-and-imports (every needed import is emitted)"),
+                                       failed=["every-needed-import-is-emitted"], outcome=f"{type(e).__name__}: {str(e)[:300]}")])
+        S = hm.Stamp
+        sent = []
+        state = {}
+
+        def handler(request):
+            body = json.loads(request.content)
+            sent.append(body)
+            return httpx.Response(200, json={"data": state["data"]})
+        client = mod.Client(url="http://x/graphql", http_client=httpx.AsyncClient(transport=httpx.MockTransport(handler)))
+
+        def scenario(name, method, kw, data, expect_vars, expect_ser, expect_parse, read):
+            nonlocal cases
+            cases += 1
+            hm.CALLS.clear()
+            state["data"] = data
+            bad = []
+            try:
+                res = asyncio.run(getattr(client, method)(**kw))
+                ser = sorted((n, repr(v)) for n, v in hm.CALLS if n.startswith("ser"))
+                par = sorted((n, repr(v)) for n, v in hm.CALLS if n.startswith("parse"))
+                if sent[-1].get("variables") != expect_vars:
+                    bad.append(f"arguments-transmitted-as-serialize(value): sent {sent[-1].get('variables')!r}")
+                if ser != sorted((n, repr(v)) for n, v in expect_ser):
+                    bad.append(f"serialize-called-once-per-non-null-occurrence-never-for-None-or-omitted: {ser}")
+                if par != sorted((n, repr(v)) for n, v in expect_parse):
+                    bad.append(f"parse-called-once-per-non-null-occurrence-never-for-null: {par}")
+                problems = read(res)
+                if problems:
+                    bad.append(f"occurrences-reach-user-code-as-parse(raw): {problems}")
+            except Exception as e:      # noqa
+                bad.append(f"raises-{type(e).__name__}: {str(e)[:200]}")
+            if bad:
+                fails.append(dict(inputs=dict(scenario=name), failed=bad, outcome=None))
+
+        full = {"event": {"id": "1", "when": "w", "maybe": None, "times": ["t1", "t2"], "grid": [["g1", None], []], "tag": "x", "plain": 5,
+                          "loose": {"any": [1]}, "inner": {"when": "iw", "maybe": "im"}}}
+
+        def read_full(res):
+            e = res.event
+            want = dict(when=S("P:w"), maybe=None, times=[S("P:t1"), S("P:t2")], grid=[[S("P:g1"), None], []], tag="tag:x", plain=5,
+                        loose={"any": [1]})
+            bad = [k for k, v in want.items() if getattr(e, k) != v]
+            if e.inner.when != S("P:iw") or e.inner.maybe != S("P:im"):
+                bad.append("inner")
+            return bad
+        parses_full = [("parse_stamp", x) for x in ("w", "t1", "t2", "g1", "iw", "im")] + [("parse_tag", "x")]
+        # (nullable top-level variables of a scalar with serializer are the recorded finding F05 and have their own witness)
+        scenario("results-all-positions/required-variables-only", "get_event", dict(after=S("a"), tag="tg"), full,
+                 {"after": "S:a", "tag": "out:tg"}, [("ser_stamp", S("a")), ("ser_tag", "tg")], parses_full, read_full)
+        w = it.Window(start=S("s1"), stamps=[S("x1"), S("x2")], nested=it.Window(start=S("n1"), end=None), tag="t")
+        scenario("input-model-fields/lists/nested", "get_event", dict(after=S("a"), w=w, ws=[it.Window(start=S("l1"))], tag="tg"), full,
+                 {"after": "S:a", "w": {"start": "S:s1", "stamps": ["S:x1", "S:x2"], "nested": {"start": "S:n1", "end": None}, "tag": "out:t"},
+                  "ws": [{"start": "S:l1"}], "tag": "out:tg"},
+                 [("ser_stamp", S(x)) for x in ("a", "s1", "x1", "x2", "n1", "l1")] + [("ser_tag", "t"), ("ser_tag", "tg")],
+                 parses_full, read_full)
+        scenario("second-operation-with-the-same-scalar", "second", dict(after=S("b")), {"event": {"id": "2"}},
+                 {"after": "S:b"}, [("ser_stamp", S("b"))], [], lambda res: [] if res.event.id == "2" else ["id"])
+        scenario("interface-position-and-null", "get_node", {}, {"node": {"__typename": "Event", "id": "1", "at": None, "when": "nw"}},
+                 {}, [], [("parse_stamp", "nw")], lambda res: [] if res.node.at is None and res.node.when == S("P:nw") else ["node"])
+        scenario("interface-position-other-type", "get_node", {}, {"node": {"__typename": "Other", "id": "1", "at": "oa"}},
+                 {}, [], [("parse_stamp", "oa")], lambda res: [] if res.node.at == S("P:oa") else ["node.at"])
+    finally:
+        if g is not None:
+            g.cleanup()
+    return dict(function="ariadne_codegen.main:client", name="bounded.scalar-positions", kind="bounded stand-in (end-to-end, native)",
+                domain="4 scalar configurations (dotted type+parse+serialize, builtin type with dotted parse/serialize, native type only, "
+                       "unconfigured) x result positions (non-null, nullable null/present, list, nested list with null, nested object, fragment "
+                       "class, interface members) x argument positions (required variable, input model field, list field, nested model, list of "
+                       "models, second operation); every parse/serialize call recorded",
+                cases=cases, failed=len(fails), failures=fails)
